@@ -674,7 +674,7 @@ func (c *MConnection) stopPongTimer() {
 // maxPacketMsgSize returns a maximum size of PacketMsg
 func (c *MConnection) maxPacketMsgSize() int {
 	bz, err := proto.Marshal(mustWrapPacket(&tmp2p.PacketMsg{
-		ChannelID: 0x01,
+		ChannelID: 0xFF, // channel ids are bytes; ids of 0x80 and above take two bytes on the wire
 		EOF:       true,
 		Data:      make([]byte, c.config.MaxPacketMsgPayloadSize),
 	}))
